@@ -9,14 +9,15 @@ import (
 )
 
 type GenOpts struct {
-	Mode        string // pregel | dag | mixed
-	MaxNodes    int
-	Depth       int  // remaining nesting depth for graph nodes
-	Cycles      bool // allow back edges (pregel only)
-	FailPct     int  // percent of failing node bodies
-	BranchPct   int  // chance (percent) that a node gets a branch
-	NoNested    bool
-	NegLimitPct int // percent of pregel graphs compiled with an explicit step limit below 1 (refused at run start)
+	Mode         string // pregel | dag | mixed
+	MaxNodes     int
+	Depth        int  // remaining nesting depth for graph nodes
+	Cycles       bool // allow back edges (pregel only)
+	FailPct      int  // percent of failing node bodies
+	BranchPct    int  // chance (percent) that a node gets a branch
+	NoNested     bool
+	NegLimitPct  int // percent of pregel graphs compiled with an explicit step limit below 1 (refused at run start)
+	CompileCBPct int // percent of graphs (any level) compiled with a no-op graph compile callback
 }
 
 func has(edges [][2]string, a, b string) bool {
@@ -176,6 +177,9 @@ func Gen(r *vh.Rand, o GenOpts) *Graph {
 		g.MaxSteps = r.Range(1, 7)
 	} else if !dag && r.Chance(o.NegLimitPct) {
 		g.NegMaxSteps = true
+	}
+	if o.CompileCBPct > 0 && r.Chance(o.CompileCBPct) {
+		g.CompileCB = true
 	}
 	return g
 }
